@@ -172,28 +172,4 @@ fn mul_by_small(a: i256, s: i8) {
     kani::cover!(a.checked_mul(b).is_some() && neg && s < -1 && la[2] != 0, "negative product, wide operand");
 }
 
-//@ tier: thorough
-//@ timeout: 2400
-//@ functions: arrow_buffer::i256::{wrapping_mul, checked_mul}, mulx
-//@ bound: one operand full width (256 bit), the other in -128..=127 (i8); exact product on limbs with a 9-bit multiplier; the full-width product is decided by Engine M (smt/C12)
-#[kani::proof]
-#[kani::unwind(6)]
-fn c12_i256_mul_wide_by_i8() {
-    mul_by_small(any_i256(), kani::any());
-}
 
-//@ tier: thorough
-//@ timeout: 2400
-//@ functions: arrow_buffer::i256::{wrapping_mul, checked_mul}, mulx
-//@ bound: one operand = sign-extended i64 shifted left by 0/64/128/192 bits (so every limb position and the overflow edge are reached), the other in -8..=7; exact product on limbs
-#[kani::proof]
-#[kani::unwind(6)]
-fn c12_i256_mul_limb_by_nibble() {
-    let v: i64 = kani::any();
-    let sh: u8 = kani::any();
-    kani::assume(sh < 4);
-    let a = i256::from_i128(v as i128) << (64 * sh);
-    let s: i8 = kani::any();
-    kani::assume(s >= -8 && s <= 7);
-    mul_by_small(a, s);
-}
